@@ -318,13 +318,13 @@ func growth(a, b map[string]int) string {
 // open connections.
 func TestVerifC20Leak(t *testing.T) {
 	stt := vs.NewStats(t, "C20")
-	stt.Rule = "3 HA hosts converged by the real daemons, then one situation drawn from {healthy, replica down, master down without failover, ZooKeeper down (lost state), full maintenance, one host unregistered, manager_switchover with the master's mysync cut from ZooKeeper} is held for 60 rounds of every loop body of every process; the number of open connections at the fake servers and the process's goroutine count are sampled after rounds 20, 40 and 60; oracle: no growth by 4 or more connections (6 goroutines) in BOTH intervals (a pool filling up shows in the first interval only); non-trivial = the situation is not 'healthy'"
+	stt.Rule = "3 HA hosts converged by the real daemons, then one situation drawn from {healthy, replica down, master down without failover, ZooKeeper down (lost state), full maintenance, one host unregistered, manager_switchover with the master's mysync cut from ZooKeeper, manager_switchover with the master answering every statement with a 'dubious' error} is held for 60 rounds of every loop body of every process; the number of open connections at the fake servers and the process's goroutine count are sampled after rounds 20, 40 and 60; oracle: no growth by 4 or more connections (6 goroutines) in BOTH intervals (a pool filling up shows in the first interval only); non-trivial = the situation is not 'healthy'"
 	stt.Assumptions = simAssumptions
 	stt.Check(t, vs.CheckOpts{Bubble: true}, func(c *vs.Case) {
 		ha := []string{"h1", "h2", "h3"}
-		sit := c.Src.Pick("situation", "healthy", "replica-down", "master-down", "zk-down", "maintenance", "host-unregistered", "manager-switchover-master-cut")
+		sit := c.Src.Pick("situation", "healthy", "replica-down", "master-down", "zk-down", "maintenance", "host-unregistered", "manager-switchover-master-cut", "manager-switchover-master-answers-dubious-errors")
 		o := simOpts{HA: ha, LogLevel: simLogLevel(), Cfg: map[string]string{"failover": "false"}}
-		if sit == "manager-switchover-master-cut" || c.Src.Bool("manager_switchover") {
+		if sit == "manager-switchover-master-cut" || sit == "manager-switchover-master-answers-dubious-errors" || c.Src.Bool("manager_switchover") {
 			o.Cfg["manager_switchover"] = "true"
 		}
 		dir, _ := os.MkdirTemp("", "verifsim")
@@ -346,6 +346,32 @@ func TestVerifC20Leak(t *testing.T) {
 			s.opMaintenance("")
 		case "host-unregistered":
 			s.zk.RawDelete(simNS + "/" + pathHANodes + "/h3")
+		case "manager-switchover-master-answers-dubious-errors":
+			// every statement sent to the master is answered with an error the daemon classifies as
+			// "dubious" (too many connections and the like): the extra probe of the master runs each tick
+			// (only to the manager, which must not be the master's own mysync: that one keeps reporting
+			// the master healthy). Management is first moved to another host.
+			if p := s.procs[s.masterKey()]; p != nil {
+				l := s.zk.Link(p.id)
+				l.Set(func(l *vs.ZKLink) { l.Refuse = true })
+				l.Sever()
+				for i := 0; i < 12; i++ {
+					s.round(true)
+					if m := s.manager(); m != nil && m.host != s.masterKey() {
+						break
+					}
+				}
+				l.Set(func(l *vs.ZKLink) { l.Refuse = false })
+				s.round(true)
+				s.round(true)
+			}
+			issuer := "nobody"
+			if m := s.manager(); m != nil && m.host != s.masterKey() {
+				issuer = m.id
+			} else {
+				c.Class("management-did-not-move")
+			}
+			s.w.AddFault(&vs.Fault{Issuer: issuer, Target: s.masterKey(), Nth: 1, Kind: "err", Code: uint16([]int{1040, 1203, 1045}[c.Src.Int("dubious_code", 0, 2)]), Sticky: true})
 		case "manager-switchover-master-cut":
 			if p := s.procs[s.masterKey()]; p != nil {
 				l := s.zk.Link(p.id)
